@@ -174,6 +174,7 @@ fn token_field(tok: &str, k: &Cfg, alt: bool) -> (String, String) {
         "tFwd" => s("Forwarded", "for=6.6.6.9"),
         "tRid" => s("X-Request-Id", "trailer-rid"),
         "tCorr" => (k.corr().to_string(), "trailer-corr".into()),
+        "tKA" => s("Keep-Alive", "timeout=9"),
         // responses
         "r1" => s("X-R", if alt { "r1" } else { "r1, \"a,b\"" }),
         "r2" => s("X-R", "r2"),
